@@ -213,6 +213,99 @@ class Check:
         self.decided_by[decided_by] = self.decided_by.get(decided_by, 0) + 1
         return res, model, dt
 
+    # ---- parallel discharge of independent obligations ----------------------------------------------------
+    def _smt2_text(self, constraints):
+        s = z3.Solver()
+        for c in constraints:
+            s.add(c)
+        for c in G.facts:
+            s.add(c)
+        txt = s.to_smt2()
+        return '(set-logic ALL)\n' + txt
+
+    @staticmethod
+    def _run_portfolio(path, budget_s):
+        """z3 and cvc5 (bit-vectors as integers) race on one SMT-LIB file; first definitive answer wins"""
+        txt = open(path).read()
+        cmds = [['z3-new', '-T:%d' % int(budget_s), path]]
+        if 'bvumul_noovfl' not in txt and 'bvsmul_noovfl' not in txt and 'bvsmul_noudfl' not in txt:
+            p2 = path[:-5] + '.cvc5.smt2'
+            t2 = txt
+            for a, b in (('bvudiv_i', 'bvudiv'), ('bvurem_i', 'bvurem'), ('bvsdiv_i', 'bvsdiv'), ('bvsrem_i', 'bvsrem'),
+                         ('bvsmod_i', 'bvsmod')):
+                t2 = t2.replace(a, b)
+            with open(p2, 'w') as f:
+                f.write(t2)
+            cmds.append(['cvc5', '--lang', 'smt2', '--tlimit=%d' % int(budget_s * 1000), '--solve-bv-as-int=sum', p2])
+        procs = [subprocess.Popen(c, stdout=subprocess.PIPE, stderr=subprocess.STDOUT, text=True) for c in cmds]
+        verdict, who = 'unknown', ''
+        t0 = time.time()
+        live = list(zip(cmds, procs))
+        while live and time.time() - t0 < budget_s + 10:
+            for c, p in list(live):
+                if p.poll() is not None:
+                    out = (p.stdout.read() or '').strip()
+                    live.remove((c, p))
+                    first = out.split('\n')[0].strip() if out else ''
+                    if first in ('sat', 'unsat') and '(error' not in out:
+                        verdict, who = first, c[0] + (' ' + c[4] if c[0] == 'cvc5' else '')
+                        live_now = live
+                        live = []
+                        for _, q in live_now:
+                            q.kill()
+                        break
+            else:
+                time.sleep(0.02)
+                continue
+            break
+        for _, q in live:
+            q.kill()
+        for f in (path, path[:-5] + '.cvc5.smt2'):
+            try:
+                os.remove(f)
+            except OSError:
+                pass
+        return verdict, who, time.time() - t0
+
+    def discharge_parallel(self, jobs, workers=12):
+        """jobs: list of dicts with the arguments of obligation().  Every job whose negation is unsat (under the
+        known-finding exclusions it would get) is recorded as holding; the rest go through obligation() sequentially,
+        which produces models, replays and reports."""
+        from concurrent.futures import ThreadPoolExecutor
+        os.makedirs(os.path.join(BUILD, 'smt'), exist_ok=True)
+        prepared = []
+        for n, j in enumerate(jobs):
+            name = j['name']
+            regions = [e for e in self.known if (e.get('obligation') == name or (e.get('obligation_prefix') and
+                       name.startswith(e['obligation_prefix']))) and e.get('status', 'known') == 'known']
+            if regions:
+                prepared.append((j, None))
+                continue
+            path = os.path.join(BUILD, 'smt', 'par_%d_%d.smt2' % (os.getpid(), n))
+            with open(path, 'w') as f:
+                f.write(self._smt2_text(list(j['pc']) + [z3.Not(j['claim'])]))
+            prepared.append((j, path))
+        budget = min(self.timeout_ms / 1000.0, 120.0)
+        results = {}
+        with ThreadPoolExecutor(max_workers=workers) as ex:
+            futs = {ex.submit(self._run_portfolio, p, budget): i for i, (j, p) in enumerate(prepared) if p}
+            for fut, i in futs.items():
+                results[i] = fut.result()
+        all_ok = True
+        for i, (j, p) in enumerate(prepared):
+            r = results.get(i)
+            if r and r[0] == 'unsat':
+                self.queries += 1
+                self.solver_s += r[2]
+                self.decided_by[r[1]] = self.decided_by.get(r[1], 0) + 1
+                self.obligations.append({'id': j['name'], 'kind': j.get('kind', 'FUNC'), 'bound': j.get('bound', ''),
+                                         'verdict': 'holds', 'solver_s': round(r[2], 3), 'decided_by': r[1] + ' (parallel)'})
+            else:
+                ok = self.obligation(j['name'], j['pc'], j['claim'], j.get('inputs'), replay=j.get('replay'),
+                                     bound=j.get('bound', ''), describe=j.get('describe'), kind=j.get('kind', 'FUNC'))
+                all_ok = all_ok and ok
+        return all_ok
+
     def solve_split(self, constraints, split):
         """decide `constraints` by case analysis over split=(term, [values]): one incremental solver,
         one query per value; returns like solve() (first sat wins; unknown if any case is undecided)"""
